@@ -44,6 +44,7 @@ def run(ctx):
     c04.r41(ctx, ctx.repo['writer'])
     c16.r161(ctx, ctx.repo['writer'])
     c01.r11(ctx)
+    r27(ctx)
     from . import callsigs as _cs
     _cs.general_rules(ctx, 'R2', ['writer'])
 
@@ -549,3 +550,38 @@ def _dict_items(node):
     if not isinstance(node, ast.Dict):
         return [], []
     return node.keys, node.values
+
+
+def r27(ctx, rule='R2.7'):
+    """scope discipline of the page loop: inside it the whole column `data0` may only be sliced into the
+    page (`data0.iloc[row_start:row_end]`) or inspected for its dtype; everything that is encoded,
+    counted or measured must derive from the page slice"""
+    m = ctx.repo['writer']
+    f = m.func('write_column')
+    loop = _find_page_loop(f)
+    col = f.args.args[1].arg
+    pm = {}
+    for n in ast.walk(loop):
+        for c in ast.iter_child_nodes(n):
+            pm[c] = n
+    n_loads = 0
+    bad = []
+    for n in ast.walk(loop):
+        if isinstance(n, ast.Name) and n.id == col and isinstance(n.ctx, ast.Load):
+            n_loads += 1
+            p = pm.get(n)
+            ok = False
+            if isinstance(p, ast.Attribute) and p.attr == 'dtype':
+                ok = True
+            elif isinstance(p, ast.Attribute) and p.attr == 'iloc':
+                pp = pm.get(p)
+                ok = isinstance(pp, ast.Subscript) and norm(pp.slice) == 'row_start:row_end'
+            if not ok:
+                st = p
+                while st is not None and not isinstance(st, ast.stmt):
+                    st = pm.get(st)
+                bad.append(norm(st)[:70] if st is not None else norm(p))
+    ctx.floor(rule, 'uses of the whole column inside the page loop', n_loads, 2)
+    ctx.ob(rule, 'writer.write_column:page-loop-uses-the-whole-column-only-to-slice-or-inspect-its-dtype', not bad,
+           'inside the per-page loop `%s` is used other than as %s.iloc[row_start:row_end] / %s.dtype: %s (each page must '
+           'hold exactly its own rows)' % (col, col, col, bad or 'nowhere'), m.loc(loop))
